@@ -174,27 +174,41 @@ def toAction (p : Shape) (s : St) : Ev → Option (Option Action)
   | .sinkRecv l => some ((findTok s ⟨l, p.n, .pending⟩).map .sink)
   | _ => none
 
-def confRun (p : Shape) : St → Nat → List Ev → String
-  | _, _, [] => "bad-op"
-  | s, _, [.finish] =>
-    if (enabled p s).isEmpty then "ok"
-    else s!"reject:end:model-not-terminal({s.toks.length}-tokens,{s.srcs.length}-sources-left)"
-  | s, _, [.stuck] =>
-    if (enabled p s).isEmpty then "reject:stuck:model-terminal" else "stuck"
-  | _, _, .finish :: _ => "bad-op"
-  | _, _, .stuck :: _ => "bad-op"
+inductive ConfRes
+  | ok                                  -- the trace is a run of the model and ends in a terminal state
+  | stuck                               -- `stuck` trace, and the model agrees that steps are still due
+  | bad                                 -- malformed trace
+  | reject (idx : Nat) (why : String)   -- event `idx` has no enabled counterpart in the model
+  | notTerminal (toks srcs : Nat)       -- `end`, but the model still owes steps
+  | stuckTerminal                       -- `stuck`, but the model has nothing left to do
+  deriving DecidableEq, Repr
+
+def ConfRes.render : ConfRes → String
+  | .ok => "ok"
+  | .stuck => "stuck"
+  | .bad => "bad-op"
+  | .reject idx why => s!"reject:{idx}:{why}"
+  | .notTerminal t k => s!"reject:end:model-not-terminal({t}-tokens,{k}-sources-left)"
+  | .stuckTerminal => "reject:stuck:model-terminal"
+
+def confRun (p : Shape) : St → Nat → List Ev → ConfRes
+  | _, _, [] => .bad
+  | s, _, [.finish] => if (enabled p s).isEmpty then .ok else .notTerminal s.toks.length s.srcs.length
+  | s, _, [.stuck] => if (enabled p s).isEmpty then .stuckTerminal else .stuck
+  | _, _, .finish :: _ :: _ => .bad
+  | _, _, .stuck :: _ :: _ => .bad
   | s, idx, e :: rest =>
     match toAction p s e with
     | none => confRun p s (idx + 1) rest
-    | some none => s!"reject:{idx}:no-enabled-model-step"
+    | some none => .reject idx "no-enabled-model-step"
     | some (some a) =>
       match act p s a with
       | some s' => confRun p s' (idx + 1) rest
-      | none => s!"reject:{idx}:model-step-not-enabled"
+      | none => .reject idx "model-step-not-enabled"
 
 def conformance (fields : List String) : String :=
   match parseReq fields with
-  | some r => confRun r.shape (init (List.range r.n) r.faults) 0 r.evs
+  | some r => (confRun r.shape (init (List.range r.n) r.faults) 0 r.evs).render
   | none => "bad-op"
 
 end Wm.Pipeline.Mon
